@@ -60,3 +60,20 @@ pub fn mk_state(len: Option<u64>, pos: u64, msg: &str, prefix: &str, tick: u64, 
     st.prefix = TabExpandedString::new(prefix.to_string().into(), tab_width);
     st
 }
+
+/// The rate estimator under an injected clock.
+pub struct Est(pub Estimator);
+impl Est {
+    pub fn new(now: Instant) -> Self {
+        Est(Estimator::new(now))
+    }
+    pub fn record(&mut self, steps: u64, now: Instant) {
+        self.0.record(steps, now)
+    }
+    pub fn reset(&mut self, now: Instant) {
+        self.0.reset(now)
+    }
+    pub fn rate(&self, now: Instant) -> f64 {
+        self.0.steps_per_second(now)
+    }
+}
